@@ -77,12 +77,10 @@ theorem linreg_model_privloss (p : LinParams ℝ) (hε : 0 ≤ p.eps) (hd : 0 < 
     rw [Plan.probeFree_probes _ h, Plan.probeFree_probes _ h]
   exact lossLe_run _ _ _ _ hl outs hp hfull
 
-/-- StandardScaler (ε/2 over d column means + ε/2 over d column variances); the list-level variance sensitivity is
-the hypothesis `hvar` -/
+/-- StandardScaler (ε/2 over d column means + ε/2 over d column variances): ≤ ε.  No hypothesis beyond the shape:
+the list-level variance sensitivity is `column_var_sens` below (C07's `var_sens` on the clipped column) -/
 theorem scaler_model_privloss (p : ScalerParams ℝ) (hε : 0 ≤ p.eps) (hd : 0 < p.d)
     (hb : ∀ j, nth p.lo j ≤ nth p.hi j) (pre post : DS ℝ) (r r' : Rec ℝ) (hn : p.n = pre.length + 1 + post.length)
-    (hvar : ∀ j, |varL ((pre ++ r :: post).map (feat p.lo p.hi j)) - varL ((pre ++ r' :: post).map (feat p.lo p.hi j))|
-        ≤ 1 * (((nth p.hi j - nth p.lo j) / p.n) * ((nth p.hi j - nth p.lo j) / p.n) * ((p.n : ℝ) - 1)))
     (outs : List ℝ) (hfull : ((scalerPlan p).run (pre ++ r :: post) outs).release ≠ none) :
     let t := (scalerPlan p).run (pre ++ r :: post) outs
     let t' := (scalerPlan p).run (pre ++ r' :: post) outs
@@ -90,7 +88,19 @@ theorem scaler_model_privloss (p : ScalerParams ℝ) (hε : 0 ≤ p.eps) (hd : 0
   have hp : ((scalerPlan p).run (pre ++ r :: post) outs).probes = ((scalerPlan p).run (pre ++ r' :: post) outs).probes := by
     have h := scalerPlan_probeFree p
     rw [Plan.probeFree_probes _ h, Plan.probeFree_probes _ h]
-  exact lossLe_run _ _ _ _ (scaler_privloss p hε hd hb pre post r r' hn hvar) outs hp hfull
+  exact lossLe_run _ _ _ _ (scaler_privloss_free p hε hd hb pre post r r' hn) outs hp hfull
+
+/-- the variance input of the StandardScaler plan is the tools' `var` of the clipped column (the two transcriptions
+of `np.var` and `np.clip` coincide), so C07's `var_sens` gives: one replaced record (arbitrary features, clipped
+first) moves the variance of column `j` by at most the configured `((u−l)/n)²(n−1)`, for every `n ≥ 1` -/
+theorem column_var_sens (lo hi : List ℝ) (j n : Nat) (hb : nth lo j ≤ nth hi j) (pre post : DS ℝ) (r r' : Rec ℝ)
+    (hn : n = pre.length + 1 + post.length) :
+    (∀ D : DS ℝ, varL (D.map (feat lo hi j)) =
+        Tools.var ((D.map fun q => nth q.x j).map (Tools.clip (nth lo j) (nth hi j)))) ∧
+    |varL ((pre ++ r :: post).map (feat lo hi j)) - varL ((pre ++ r' :: post).map (feat lo hi j))|
+      ≤ ((nth hi j - nth lo j) / n) * ((nth hi j - nth lo j) / n) * ((n : ℝ) - 1) :=
+  ⟨fun D => by rw [PM.feat_column, PM.varL_eq_var],
+   by simpa using PM.column_var_sens lo hi j n hb pre post r r' hn⟩
 
 /-- PCA / covariance_eig relative to the cited facts (`hEig1`, `hEigSum`: eigenvalue perturbation; `hBing`: the Bingham
 input moves by at most its sensitivity): ε/2 mean (uncentred) + ε₀ = ε_c/(k+[k≠d]) eigenvalues + min(k,d−1) Bingham calls -/
